@@ -458,7 +458,22 @@ func TestPropConversions(t *testing.T) {
 				t.Fatalf("Uint32ToRegs(%#x) = %#x %#x (high word first expected)", v, r[2*i], r[2*i+1])
 			}
 		}
+		// a conversion is a function of its argument: the caller's slices are
+		// the same afterwards (the client hands the same registers to several
+		// conversions, and a caller compares them with what it wrote)
+		u0, r0, rs0 := append([]uint32{}, u...), append([]uint16{}, r...), append([]uint16{}, rs...)
+		unchanged := func(after string) {
+			if !eqU16(r, r0) || !eqU16(rs, rs0) {
+				t.Fatalf("%s changed its argument: registers %#x (were %#x), swapped %#x (were %#x)", after, r, r0, rs, rs0)
+			}
+			for i := range u {
+				if u[i] != u0[i] {
+					t.Fatalf("%s changed its argument: values %#x (were %#x)", after, u, u0)
+				}
+			}
+		}
 		back, backS := modbus.RegsToUint32(r), modbus.RegsToUint32SwapWords(rs)
+		unchanged("RegsToUint32/RegsToUint32SwapWords")
 		for i, v := range u {
 			if back[i] != v || backS[i] != v {
 				t.Fatalf("uint32 %#x round trip: %#x / swapped %#x", v, back[i], backS[i])
@@ -476,6 +491,9 @@ func TestPropConversions(t *testing.T) {
 			t.Fatalf("Int32ToRegs: %v vs %v / swapped %v", ri, r, ris)
 		}
 		bi, bis := modbus.RegsToInt32(ri), modbus.RegsToInt32SwapWords(ris)
+		if !eqU16(ri, r0) || !eqU16(ris, rs0) {
+			t.Fatalf("RegsToInt32/RegsToInt32SwapWords changed its argument: %#x (were %#x), swapped %#x (were %#x)", ri, r0, ris, rs0)
+		}
 		for i, v := range s {
 			if bi[i] != v || bis[i] != v {
 				t.Fatalf("int32 %d round trip: %d / swapped %d", v, bi[i], bis[i])
@@ -487,6 +505,9 @@ func TestPropConversions(t *testing.T) {
 			t.Fatalf("Float32ToRegs: %v vs %v / swapped %v", rf, r, rfs)
 		}
 		bf, bfs := modbus.RegsToFloat32(rf), modbus.RegsToFloat32SwapWords(rfs)
+		if !eqU16(rf, r0) || !eqU16(rfs, rs0) {
+			t.Fatalf("RegsToFloat32/RegsToFloat32SwapWords changed its argument: %#x (were %#x), swapped %#x (were %#x)", rf, r0, rfs, rs0)
+		}
 		for i, v := range f {
 			if math.Float32bits(bf[i]) != math.Float32bits(v) || math.Float32bits(bfs[i]) != math.Float32bits(v) {
 				t.Fatalf("float32 %#x round trip: %#x / swapped %#x", math.Float32bits(v), math.Float32bits(bf[i]), math.Float32bits(bfs[i]))
@@ -502,6 +523,14 @@ func TestPropConversions(t *testing.T) {
 		arr := modbus.Uint16Array(modbus.PutUint16Array(r...))
 		if !eqU16(arr, r) {
 			t.Fatalf("Uint16Array(PutUint16Array(%v)) = %v", r, arr)
+		}
+		_ = modbus.RegsToInt16(r)
+		_ = modbus.PutUint16Array(r...)
+		unchanged("a register to value conversion")
+		for i := range s {
+			if s[i] != int32(u0[i]) || math.Float32bits(f[i]) != u0[i] {
+				t.Fatalf("a value to register conversion changed its argument: %v %v (from %#x)", s, f, u0)
+			}
 		}
 		// odd register counts: the unpaired register is ignored, no panic
 		if n > 0 {
